@@ -76,7 +76,7 @@ Qed.
 Lemma step_in_place_names : forall st o, in_place o st ->
   map fst (s_schema (fst (step st o))) = map fst (s_schema st) /\ s_cache (fst (step st o)) = s_cache st.
 Proof.
-  intros [sch cache] o H. destruct o as [f|i ci|ci|n|i ci]; try contradiction; unfold step; cbn [s_schema s_cache].
+  intros [sch cache] o H. destruct o as [f|i ci|ci|n|i ci|h|i h]; try contradiction; unfold step; cbn [s_schema s_cache].
   - destruct (declared ci) as [c|e]; cbn [fst s_schema s_cache]; [|split; reflexivity].
     split; [|reflexivity]. apply update_nth_names. intros nc Hn. cbn [fst].
     unfold in_place in H. cbn [s_schema] in H. symmetry. apply H. exact Hn.
@@ -120,4 +120,24 @@ Proof.
   { unfold with_back. rewrite map_length. apply description_length. }
   split; [|exact Rest].
   rewrite (with_back_nth _ _ _ H1). cbn [e_code]. rewrite H2. reflexivity.
+Qed.
+
+(* ------------------------------------------------------------------ *)
+(* round 6: copies of the schema object / of a column object *)
+Lemma step_describe_copy : forall st how,
+  snd (step st (ODescribeCopy how)) = current_view st /\ s_schema (fst (step st (ODescribeCopy how))) = s_schema st.
+Proof.
+  intros [sch cache] how. unfold step, current_view. cbn [s_schema s_cache fst snd].
+  rewrite describe_names_schema. split; reflexivity.
+Qed.
+
+Lemma step_copy_column : forall st i how, fst (step st (OCopyColumn i how)) = st.
+Proof. intros [sch cache] i how. reflexivity. Qed.
+
+(* after a describe through a copy no frame of the session is cached: every frame answers the current view next *)
+Lemma describe_after_copy : forall st how f,
+  snd (step (fst (step st (ODescribeCopy how))) (ODescribe f)) = current_view st.
+Proof.
+  intros [sch cache] how f. unfold step, current_view. cbn [s_schema s_cache fst snd].
+  rewrite describe_names_schema. reflexivity.
 Qed.
